@@ -183,16 +183,21 @@ LayerExists(n, P, GG, full) ==
 JudgeLayer(r) ==
    LET GG == Span(GraphGens(r.n, r.g))
        full == Len(r.P) = r.n /\ ValidStabilizer(r.n, r.P)
-       ex == LayerExists(r.n, r.P, GG, full /\ r.n >= 5)
-   IN  CASE r.res = "raise" -> {"raised"}
-         [] r.res = "none" -> C(~ex, "missed")
-         [] r.res = "layer" ->
-              C(r.offdiag = 0 /\ Len(r.blocks) = r.n /\ \A q \in 1..r.n : r.blocks[q] \in InvertibleBlocks, "not-clifford")
-              \cup C(r.offdiag = 0 /\ Len(r.blocks) = r.n /\ SoundLayer(r.blocks, r.P, GG), "unsound")
-              \cup C(r.circ = 1 /\ (\A i \in 1..Len(r.gates) : WellFormed(r.gates[i], r.n) /\ ~IsTwo(r.gates[i]))
-                      /\ \A q \in 0..(r.n - 1) : /\ Body(ApplySeq(r.gates, XOn(q))) = ApplyBlocks(r.blocks, XOn(q))
-                                                   /\ Body(ApplySeq(r.gates, ZOn(q))) = ApplyBlocks(r.blocks, ZOn(q)), "circuit")
-         [] OTHER -> {"unknown-result"}
+       (* existence of a layer: by a witness handed over with the record (checked here), by brute force over the 6^n layers (n <= 4), *)
+       (* or, for full stabilizers of n >= 5, by equality of the class keys (LCGroups)                                           *)
+       witnessed == Len(r.witness) = r.n /\ (\A q \in 1..r.n : r.witness[q] \in InvertibleBlocks) /\ SoundLayer(r.witness, r.P, GG)
+       decided == witnessed \/ r.n <= 4 \/ full
+       ex == witnessed \/ (IF r.n <= 4 THEN LayerExists(r.n, r.P, GG, FALSE) ELSE (full /\ LayerExists(r.n, r.P, GG, TRUE)))
+   IN  C(Len(r.witness) = 0 \/ witnessed, "bad-input")
+       \cup (CASE r.res = "raise" -> {"raised"}
+               [] r.res = "none" -> C(~decided \/ ~ex, "missed")
+               [] r.res = "layer" ->
+                    C(r.offdiag = 0 /\ Len(r.blocks) = r.n /\ \A q \in 1..r.n : r.blocks[q] \in InvertibleBlocks, "not-clifford")
+                    \cup C(r.offdiag = 0 /\ Len(r.blocks) = r.n /\ SoundLayer(r.blocks, r.P, GG), "unsound")
+                    \cup C(r.circ = 1 /\ (\A i \in 1..Len(r.gates) : WellFormed(r.gates[i], r.n) /\ ~IsTwo(r.gates[i]))
+                            /\ \A q \in 0..(r.n - 1) : /\ Body(ApplySeq(r.gates, XOn(q))) = ApplyBlocks(r.blocks, XOn(q))
+                                                         /\ Body(ApplySeq(r.gates, ZOn(q))) = ApplyBlocks(r.blocks, ZOn(q)), "circuit")
+               [] OTHER -> {"unknown-result"})
 
 (***************************************************************************)
 (* Tomography (C10, C11, C12).                                             *)
